@@ -113,7 +113,7 @@ Proof.
   - apply Q_set; auto. exists []. split; simpl; auto.
   - destruct (s_uselock s).
     + destruct (fl_acquire t (s_lock s)) as [l got]. destruct got.
-      * apply Q_send_body; auto. eapply Q_ext; [| |exact HQ]; reflexivity.
+      * apply Q_send_body; auto; try (eapply Q_ext; [| |exact HQ]; reflexivity).
       * apply Q_set; [eapply Q_ext; [| |exact HQ]; reflexivity|]. exists (p :: rest). split; simpl; auto.
     + apply Q_send_body; auto.
 Qed.
